@@ -22,6 +22,8 @@ Definition known_key (a : string) : bool := match key_of a with Some _ => true |
 Example tie_C07_cleanup :
   forallb known_attr (Src.cleanup_default_attrs ++ Src.cleanup_concatenation_attrs ++ Src.cleanup_filter_function_attrs)%list = true
   /\ forallb known_key Src.cleanup_pops = true
+  /\ map fst Src.cleanup_pops_by_branch = map branch_name [Conservative; Greedy; FreqDep; CleanAll]
+  /\ forallb (fun p => forallb known_key (snd p)) Src.cleanup_pops_by_branch = true
   /\ Src.cleanup_branches =
      [("method == 'conservative'", ["default_attrs"]);
       ("method == 'greedy'", ["default_attrs.union(concatenation_attrs)"]);
@@ -40,8 +42,12 @@ Definition cleared_mask (m : cleanup_method) : N :=
                               (cleanup_attrs m)) all_slots).
 Example tie_C07_cleanup_masks :
   map cleared_mask [Conservative; Greedy; FreqDep; CleanAll] = [56; 2040; 65092; 65532]%N
-  /\ bits (map (fun s => match slot_kind s with KFI => false | _ => true end) all_slots) = 65092%N.
-Proof. split; reflexivity. Qed.
+  /\ bits (map (fun s => match slot_kind s with KOmega | KFD => true | _ => false end) all_slots) = 65092%N
+  (* keys popped per mode (bit k of the mask = key k of all_keys): conservative drops the three eigenbasis-dependent
+     intermediates, frequency dependent the three frequency-dependent ones *)
+  /\ map (fun m => bits (map (fun k => existsb (String.eqb (key_name k)) (cleanup_pops_of m)) all_keys))
+         [Conservative; Greedy; FreqDep; CleanAll] = [11; 0; 28; 0]%N.
+Proof. repeat split; reflexivity. Qed.
 
 (* is_cached: every alias denotes a slot of the model *)
 Example tie_C07_is_cached :
